@@ -51,50 +51,41 @@ Definition snap_holds_b (offs : list (string * rid * Z)) (s : snapshot) : bool :
                     | None => true
                     end) (offs_ids offs).
 
-(* a finalised NodeClaim: name, reservation-id requirement (None = key absent), "capacity-type In [reserved]",
-   and the reserved offerings that were still compatible with it when its last pod was added *)
+(* a finalised NodeClaim: name; the reservation ids of the catalogue that its FINAL reservation-id requirement admits
+   (None = the NodeClaim carries no reservation-id requirement); "capacity-type In [reserved]"; and the reserved
+   offerings that were still compatible with it when its last pod was added *)
 Definition fclaim := (host * option (list rid) * bool * list rid)%type.
 
 Definition subset (a b : list string) : bool := forallb (fun x => mem x b) a.
 Definition set_eqb (a b : list string) : bool := subset a b && subset b a.
 
-(* (2) pinned to reserved capacity with exactly the ids it holds *)
+(* (2) a NodeClaim that holds reservations is pinned to reserved capacity with exactly the ids it holds: the launch
+   request admits those reservations and no other *)
 Definition pinned_ok (held : list (host * rid)) (c : fclaim) : Prop :=
   let '(h, pinned, ctonly, _) := c in
-  match pinned with
-  | Some ids => ids <> [] /\ (forall r, In r ids <-> In r (held_of h held)) /\ ctonly = true
-  | None => held_of h held = []
-  end.
+  held_of h held = [] \/
+  exists ids, pinned = Some ids /\ (forall r, In r ids <-> In r (held_of h held)) /\ ctonly = true.
 
 Definition pinned_ok_b (held : list (host * rid)) (c : fclaim) : bool :=
   let '(h, pinned, ctonly, _) := c in
-  match pinned with
-  | Some ids => negb (is_nil ids) && set_eqb ids (held_of h held) && ctonly
-  | None => is_nil (held_of h held)
-  end.
+  is_nil (held_of h held) ||
+  match pinned with Some ids => set_eqb ids (held_of h held) && ctonly | None => false end.
 
-(* (3) strict mode: a NodeClaim that is not pinned has no compatible reserved offering left to fall back from *)
-Definition strict_ok (md : mode) (c : fclaim) : Prop :=
-  let '(_, pinned, _, cands) := c in md = Strict -> pinned = None -> cands = [].
+(* (3) strict mode: a NodeClaim that holds no reservation has no compatible reserved offering left to fall back from *)
+Definition strict_ok (md : mode) (held : list (host * rid)) (c : fclaim) : Prop :=
+  let '(h, _, _, cands) := c in md = Strict -> held_of h held = [] -> cands = [].
 
-Definition strict_ok_b (md : mode) (c : fclaim) : bool :=
-  let '(_, pinned, _, cands) := c in
-  match md, pinned with Strict, None => is_nil cands | _, _ => true end.
-
-Definition pinned_count (claims : list fclaim) (r : rid) : Z :=
-  fold_right (fun c acc => (match snd (fst (fst c)) with Some ids => if mem r ids then 1 else 0 | None => 0 end) + acc) 0 claims.
+Definition strict_ok_b (md : mode) (held : list (host * rid)) (c : fclaim) : bool :=
+  let '(h, _, _, cands) := c in
+  match md with Strict => negb (is_nil (held_of h held)) || is_nil cands | Fallback => true end.
 
 Definition solve_ok (md : mode) (offs : list (string * rid * Z)) (claims : list fclaim) (s : snapshot) : Prop :=
   snap_holds offs s /\
-  (forall r c0, spec_cap offs r = Some c0 -> 0 <= c0 -> pinned_count claims r <= c0) /\
-  (forall c, In c claims -> pinned_ok (snd s) c /\ strict_ok md c).
+  (forall c, In c claims -> pinned_ok (snd s) c /\ strict_ok md (snd s) c).
 
 Definition solve_ok_b (md : mode) (offs : list (string * rid * Z)) (claims : list fclaim) (s : snapshot) : bool :=
   snap_holds_b offs s &&
-  forallb (fun r => match spec_cap offs r with
-                    | Some c0 => if 0 <=? c0 then pinned_count claims r <=? c0 else true
-                    | None => true end) (offs_ids offs) &&
-  forallb (fun c => pinned_ok_b (snd s) c && strict_ok_b md c) claims.
+  forallb (fun c => pinned_ok_b (snd s) c && strict_ok_b md (snd s) c) claims.
 
 (* per CanAdd/Add step: what was reserved is compatible reserved capacity, and strict mode never places a pod
    without a reservation while a compatible reserved offering exists *)
